@@ -394,6 +394,7 @@ def main(argv):
         return replay(pid, argv[argv.index("--replay") + 1])
     seed = int(os.environ.get("VERIF_SEED", "1"))
     spec = PROPS[pid]
+    relevant_pre = lambda d: d.get("kind") in ("hang", "crash", "conc") or True
     t0 = time.time()
     broken = []          # proof obligations / tie theorems / builds that no longer check
     stats = new_stats()
@@ -445,13 +446,6 @@ def main(argv):
             log(f"family {fam.name}: {fam.mode} alphabet={fam.alphabet} caps={fam.caps} "
                 f"{'depth=%s' % fam.depth if fam.mode == 'exh' else 'len=%s n=%s' % (fam.length, fam.n)} configs={','.join(fam.configs)}")
             disagreements += run_family(fam, seed, stats)
-        if broken and not disagreements:
-            # something no longer checks: widen the search for a failing input before giving up
-            log("a proof obligation or tie no longer checks: widening the search for a failing input")
-            for fam in spec["families"]("thorough", seed + 1000):
-                disagreements += run_family(fam, seed + 1000, stats)
-                if disagreements:
-                    break
         for k, extra in enumerate(spec.get("extra_checks", [])):
             disagreements += extra(tier, seed, stats)
     if harness_ok and spec.get("conc"):
@@ -473,6 +467,29 @@ def main(argv):
                 if bad:
                     disagreements.append({"kind": "conc", "profile": "corpus:" + fn, "program": open(os.path.join(CORPUS, fn)).read(),
                                           "schedule": run.schedule, "failures": bad[:6], "trace_tail": run.lines[-30:]})
+
+    if broken and not disagreements and harness_ok and os.path.exists(SPECGEN):
+        # something no longer checks and nothing failed so far: widen the search for a failing input (bounded in time)
+        log("a proof obligation or tie no longer checks: widening the search for a failing input (bounded)")
+        t_w = time.time()
+        for fam in spec["families"]("thorough", seed + 1000):
+            if time.time() - t_w > 150:
+                log("widening budget used up")
+                break
+            if fam.mode == "exh" and fam.depth and fam.depth > 6:
+                continue
+            if fam.mode == "rand":
+                fam.n = min(fam.n, 8000)
+            disagreements += run_family(fam, seed + 1000, stats)
+            if any(relevant_pre(d) for d in disagreements):
+                break
+        if not disagreements and spec.get("conc"):
+            import conc
+            for prof, monitors, oracles in spec["conc"]("quick", seed + 1000):
+                prof.n = prof.n * 3
+                fails = conc.run_profile(prof, seed + 1000, monitors, oracles, stats)
+                stats["conc_failures"] += len(fails)
+                disagreements += fails
 
     # 4. verdict
     relevant = spec.get("relevant", lambda d: True)
